@@ -37,7 +37,9 @@ def goodCfg (rollup : Bool) : Cfg :=
     asDictCatch := ["AccessDenied", "ZombieProcess"]
     iterCatch := ["NoSuchProcess"]
     childrenCatch := ["NoSuchProcess", "ZombieProcess"]
+    childrenRecCatch := ["NoSuchProcess", "ZombieProcess"]
     parentCatch := ["NoSuchProcess"]
+    parentsCatch := []
     initClauses := [(["AccessDenied"], "pass"), (["ZombieProcess"], "pass"), (["NoSuchProcess"], "raise NoSuchProcess")]
     runningClauses := [(["ZombieProcess"], "return True"), (["NoSuchProcess"], "return False")]
     nameCatch := ["AccessDenied", "ZombieProcess"]
